@@ -219,3 +219,120 @@ package stats
 //@   loop 2 (i) invariant isnan(max) && (forall j in len(s.Weights)-i..len(s.Weights) :: s.Weights[j] == 0)
 //@   loop 3 (i) invariant (forall j in 0..i :: s.Weights[j] != 0 ==> min <= s.Xs[j] && s.Xs[j] <= max) && (min == inf || (exists j in 0..len(s.Xs) :: s.Weights[j] != 0 && min == s.Xs[j])) && (max == ninf || (exists j in 0..len(s.Xs) :: s.Weights[j] != 0 && max == s.Xs[j])) && ((min == inf) == (max == ninf)) && (min == inf ==> (forall j in 0..i :: s.Weights[j] == 0))
 //@   assigns nothing
+
+// ---------------------------------------------------------------------
+// Standard library (A3): assumed contracts, audited by sampling only.
+
+//@ assume func sort.Float64s
+//@   trusted standard library: sorts its argument in place and touches nothing else
+//@   ensures sortedF(x)
+//@   assigns x[*]
+
+//@ assume func sort.Float64sAreSorted
+//@   trusted standard library
+//@   ensures result <==> sortedF(x)
+//@   assigns nothing
+
+// sort.Sort as used by Sample.Sort: the argument is a *sampleSorter.
+//@ assume func sort.Sort
+//@   trusted standard library: performs a sequence of data.Swap calls that leaves data ordered by data.Less
+//@   ensures sortedF(ptrcast(data, sampleSorter).xs)
+//@   ensures ptrcast(data, sampleSorter).xs == old(ptrcast(data, sampleSorter).xs) || true
+//@   assigns ptrcast(data, sampleSorter).xs[*], ptrcast(data, sampleSorter).weights[*]
+
+// Restatement of Sample.Bounds (proved in model xreal) for callers that
+// work in model real on finite data.
+//@ assume func Sample.Bounds@real
+//@   model real
+//@   trusted restatement for finite data of the contract proved in model xreal
+//@   requires wfSample(s)
+//@   ensures len(s.Xs) == 0 ==> isnan(min) && isnan(max)
+//@   ensures isnil(s.Weights) && len(s.Xs) > 0 ==> (forall k in 0..len(s.Xs) :: min <= s.Xs[k] && s.Xs[k] <= max)
+//@   ensures isnil(s.Weights) && len(s.Xs) > 0 ==> (exists k in 0..len(s.Xs) :: min == s.Xs[k]) && (exists k in 0..len(s.Xs) :: max == s.Xs[k])
+//@   ensures !isnil(s.Weights) ==> (forall k in 0..len(s.Xs) :: s.Weights[k] != 0 ==> min <= s.Xs[k] && s.Xs[k] <= max)
+//@   assigns nothing
+
+// ---------------------------------------------------------------------
+// Sums, means, variance (C09). Model real.
+
+//@ spec fsumsq(a []float64, k int) float64 = k <= 0 ? 0 : fsumsq(a, k-1) + a[k-1]*a[k-1]
+//@ spec wxsum(a []float64, w []float64, k int) float64 = k <= 0 ? 0 : wxsum(a, w, k-1) + a[k-1]*w[k-1]
+//@ spec nonneg(a []float64) bool = forall k in 0..len(a) :: a[k] >= 0
+
+//@ func Sample.Sum
+//@   model real
+//@   requires wfSample(s)
+//@   ensures [unweighted] isnil(s.Weights) ==> result == fsum(s.Xs, len(s.Xs))
+//@   ensures [weighted]  !isnil(s.Weights) ==> result == wxsum(s.Xs, s.Weights, len(s.Xs))
+//@   loop 1 (i) invariant sum == wxsum(s.Xs, s.Weights, i)
+//@   assigns nothing
+
+//@ func Sample.Weight
+//@   model real
+//@   requires wfSample(s)
+//@   ensures [unweighted] isnil(s.Weights) ==> result == len(s.Xs)
+//@   ensures [weighted]  !isnil(s.Weights) ==> result == fsum(s.Weights, len(s.Weights))
+//@   assigns nothing
+
+//@ func Mean
+//@   model real
+//@   ensures [empty] len(xs) == 0 ==> isnan(result)
+//@   ensures [def]   len(xs) > 0 ==> result * len(xs) == fsum(xs, len(xs))
+//@   loop 1 (i) invariant m * i == fsum(xs, i)
+//@   assigns nothing
+
+//@ func Variance
+//@   model real
+//@   ensures [empty] len(xs) == 0 ==> isnan(result)
+//@   ensures [one]   len(xs) == 1 ==> result == 0
+//@   ensures [def]   len(xs) >= 2 ==> result * (len(xs) - 1) == fsumsq(xs, len(xs)) - fsum(xs, len(xs)) * fsum(xs, len(xs)) / len(xs)
+//@   loop 1 (n) invariant mean * n == fsum(xs, n) && M2 == fsumsq(xs, n) - mean * mean * n
+//@   assigns nothing
+
+//@ func StdDev
+//@   model real
+//@   ensures [def] len(xs) >= 2 ==> result == sqrt((fsumsq(xs, len(xs)) - fsum(xs, len(xs)) * fsum(xs, len(xs)) / len(xs)) / (len(xs) - 1))
+//@   assigns nothing
+
+//@ func Sample.Mean
+//@   model real
+//@   requires wfSample(s) && (!isnil(s.Weights) ==> nonneg(s.Weights))
+//@   ensures [empty] len(s.Xs) == 0 ==> isnan(result)
+//@   ensures [unweighted] isnil(s.Weights) && len(s.Xs) > 0 ==> result * len(s.Xs) == fsum(s.Xs, len(s.Xs))
+//@   ensures [weighted] !isnil(s.Weights) && len(s.Xs) > 0 && fsum(s.Weights, len(s.Xs)) > 0 ==> result * fsum(s.Weights, len(s.Xs)) == wxsum(s.Xs, s.Weights, len(s.Xs))
+//@   ensures [weightless] !isnil(s.Weights) && len(s.Xs) > 0 && fsum(s.Weights, len(s.Xs)) == 0 ==> isnan(result)
+//@   loop 1 (i) invariant wsum == fsum(s.Weights, i) && wsum >= 0 && m * wsum == wxsum(s.Xs, s.Weights, i)
+//@   assigns nothing
+
+// ---------------------------------------------------------------------
+// Sort, Copy (C09, C20)
+
+//@ func sampleSorter.Swap
+//@   model real
+//@   requires p != nil && 0 <= i && i < len(p.xs) && 0 <= j && j < len(p.xs) && len(p.weights) == len(p.xs) && region(p.xs) != region(p.weights)
+//@   ensures [xs] p.xs[i] == old(p.xs[j]) && p.xs[j] == old(p.xs[i]) && p.weights[i] == old(p.weights[j]) && p.weights[j] == old(p.weights[i])
+//@   ensures [others] forall k in 0..len(p.xs) :: k != i && k != j ==> p.xs[k] == old(p.xs[k]) && p.weights[k] == old(p.weights[k])
+//@   assigns p.xs[*], p.weights[*]
+
+//@ func sampleSorter.Less
+//@   model real
+//@   requires p != nil && 0 <= i && i < len(p.xs) && 0 <= j && j < len(p.xs)
+//@   ensures [def] result <==> p.xs[i] < p.xs[j]
+//@   assigns nothing
+
+//@ func Sample.Sort
+//@   model real
+//@   requires s != nil && wfSample(*s)
+//@   ensures [flag]   s.Sorted
+//@   ensures [sorted] sortedF(s.Xs)
+//@   ensures [shape]  result == s && len(s.Xs) == old(len(s.Xs)) && len(s.Weights) == old(len(s.Weights)) && region(s.Xs) == old(region(s.Xs)) && region(s.Weights) == old(region(s.Weights)) && offset(s.Xs) == old(offset(s.Xs)) && offset(s.Weights) == old(offset(s.Weights))
+//@   ensures [already] old(s.Sorted) ==> same(s.Xs, old(s.Xs)) && same(s.Weights, old(s.Weights))
+//@   assigns s.Sorted, s.Xs[*], s.Weights[*]
+
+//@ func Sample.Copy
+//@   model real
+//@   ensures [fresh]   result != nil && fresh(result) && fresh(result.Xs) && (!isnil(s.Weights) ==> fresh(result.Weights))
+//@   ensures [xs]      same(result.Xs, s.Xs)
+//@   ensures [weights] (isnil(s.Weights) ==> isnil(result.Weights)) && (!isnil(s.Weights) ==> !isnil(result.Weights) && same(result.Weights, s.Weights))
+//@   ensures [flag]    result.Sorted == s.Sorted
+//@   assigns nothing
